@@ -177,6 +177,11 @@ inductive Prog
   | step (c : Call) (ok : Prog) (fail : Prog)
   deriving Repr
 
+/-- every call that occurs anywhere in the tree (on some path) -/
+def Prog.calls : Prog → List Call
+  | .done _ => []
+  | .step c ok fail => c :: (ok.calls ++ fail.calls)
+
 /-- environment of one reconcile: which external calls fail -/
 structure Faults where
   mask : Nat := 0
